@@ -102,13 +102,13 @@ def run(ctx):
         want = {"add", "get", "mut_top", "mut_nested"} | ({"update"} if k in "AB" else set()) | ({"getall"} if k in "ABC" else set())
         ctx.require(acts == want, "vacuous generation for kind %s: %s" % (k, sorted(acts)))
         ctx.count("graph_edges:kind_%s:depth%d" % (k, gdepth), len(by_kind[k]))
-    lines2 = [] if ctx.quick else _gen(ctx, 5, two=True)
+    lines2 = [] if ctx.quick else _gen(ctx, 4, two=True)
     ctx.count("graph_edges:two_tables", len(lines2))
-    # quick tier: depth 5 on the first table of each kind, depth 4 elsewhere; thorough tier: depth 6 everywhere
+    # quick tier: depth 5 on the first table of each kind, depth 4 elsewhere; thorough tier: depth 6 / depth 5
     first = {"A": "step", "B": "workflow", "C": "token", "D": "provenance"}
 
     def replay_depth(tab):
-        return gdepth if (not ctx.quick or first[tab.kind] == tab.name) else gdepth - 1
+        return gdepth if first[tab.kind] == tab.name else gdepth - 1
 
     async def main():
         for tab in P.TABLES:
